@@ -1,5 +1,8 @@
 import Mochi.Model.Broker
 import Mochi.Lemmas.AckRes
+import Mochi.Lemmas.BrokerAnswers
+import Mochi.Lemmas.BrokerAnswersPub
+import Mochi.Props.C04
 /-!
 # C07 — Every request that requires a response gets one
 
@@ -100,3 +103,426 @@ theorem unsub_fold_len (s : Server) (i : Nat) (inUse : Bool) (cid : Str) (filter
     split <;> simp <;> omega
 
 end Mochi.Broker
+
+/-! ## Operation level: `step s (.recv conn pk)` answers on the same connection, or closes it
+
+`R07.Live s conn i`: client object `i` is the one registered on connection `conn`, open, not stopped, not inline, its
+peer not gone.  `R07.Answered conn r X`: `wrote conn X ∈ r.2 ∨ closed conn ∈ r.2`.
+(Lemmas: `Mochi/Lemmas/BrokerAnswers.lean`.) -/
+namespace Mochi.Broker
+open Mochi.Topics R07
+
+/-- the MQTT 3 downgrade leaves MQTT 5 codes alone and turns every failure code into 0x80 for MQTT 3 -/
+theorem C07_finCode (ver rc : Nat) :
+    (ver = 5 → finCode ver rc = rc) ∧ (rc ≤ 2 → finCode ver rc = rc) ∧ (ver < 5 → rc > 2 → finCode ver rc = 0x80) := by
+  unfold finCode
+  refine ⟨fun h => ?_, fun h => ?_, fun h g => ?_⟩
+  · subst h; simp
+  · have : ¬ rc > 2 := by omega
+    simp [this]
+  · simp [h, g]
+
+/-- the reason code of one filter: 0x91 identifier in use (NOT downgraded for MQTT 3 — the `continue` in
+    `processSubscribe` skips the downgrade), else 0x8F invalid filter, 0x82 No Local on a shared subscription, 0x87
+    denied (0x80 when `ObscureNotAuthorized`), else the granted QoS `min requested maximumQos` (`C04_suback`) — each
+    passed through the MQTT 3 downgrade `finCode` (failure codes become 0x80) -/
+theorem C07_suback_code (s : Server) (i id : Nat) (sub : Sub) :
+    subCode s i id sub =
+      if (flGet (getObj s i) id).isSome then 0x91
+      else if !isValidFilter sub.filter false then finCode (getObj s i).ver 0x8F
+      else if sub.noLocal && isSharedFilter sub.filter then finCode (getObj s i).ver 0x82
+      else if !aclOk s (getObj s i).id sub.filter false then
+        finCode (getObj s i).ver (if s.caps.obscureNotAuthorized then 0x80 else 0x87)
+      else finCode (getObj s i).ver (min sub.qos s.caps.maximumQos) := by
+  unfold subCode
+  rw [C04_suback]
+
+/-- **SUBSCRIBE → SUBACK with the same identifier and EXACTLY one reason code per filter, in order, written before
+    anything else the op writes** (the retained replay, a released deferred message, …); the connection is not closed
+    instead: a live client is always written the SUBACK. -/
+theorem C07_subscribe_answered (s : Server) (conn i id subId : Nat) (fs : List Sub) (L : Live s conn i)
+    (hne : fs ≠ []) :
+    ∃ rcs rest, (step s (.recv conn (.subscribe id subId fs))).2 =
+        .wrote conn (.suback (getObj s i).ver id rcs) :: rest ∧
+      rcs.length = fs.length ∧ rcs = fs.map (subCode s i id) := by
+  obtain ⟨rest, h⟩ := step_prefix L (.subscribe id subId fs)
+  have he : fs.isEmpty = false := by cases fs <;> simp_all
+  have hh : handler s i (.subscribe id subId fs) = processSubscribe s i id subId fs := by
+    show (if fs.isEmpty then _ else _) = _
+    rw [he]; rfl
+  rw [hh] at h
+  obtain ⟨replay, hr⟩ := (processSubscribe_out L id subId fs).2
+  rw [hr] at h
+  exact ⟨_, replay ++ rest, h, by simp, rfl⟩
+
+/-- **UNSUBSCRIBE → UNSUBACK with the same identifier and exactly one reason code per filter** (0x91 for every filter
+    when the identifier is in use, else 0x00 removed / 0x11 no subscription existed), first thing the op writes.  The
+    model's UNSUBACK carries the codes for every protocol version; the wire form for MQTT 3 has none (`WPk.render`). -/
+theorem C07_unsubscribe_answered (s : Server) (conn i id : Nat) (fs : List Str) (L : Live s conn i) (hne : fs ≠ []) :
+    ∃ rcs rest, (step s (.recv conn (.unsubscribe id fs))).2 =
+        .wrote conn (.unsuback (getObj s i).ver id rcs) :: rest ∧
+      rcs.length = fs.length ∧
+      (∀ rc ∈ rcs, if (flGet (getObj s i) id).isSome then rc = 0x91 else (rc = 0x00 ∨ rc = 0x11)) := by
+  obtain ⟨rest, h⟩ := step_prefix L (.unsubscribe id fs)
+  have he : fs.isEmpty = false := by cases fs <;> simp_all
+  have hh : handler s i (.unsubscribe id fs) = processUnsubscribe s i id fs := by
+    show (if fs.isEmpty then _ else _) = _
+    rw [he]; rfl
+  rw [hh] at h
+  obtain ⟨rcs, hr, hlen, hcodes⟩ := processUnsubscribe_out L id fs
+  rw [hr] at h
+  exact ⟨rcs, rest, h, hlen, hcodes⟩
+
+/-- **PINGREQ → PINGRESP**, first thing the op writes. -/
+theorem C07_pingreq_answered (s : Server) (conn i : Nat) (L : Live s conn i) :
+    ∃ rest, (step s (.recv conn .pingreq)).2 = .wrote conn .pingresp :: rest := by
+  obtain ⟨rest, h⟩ := step_prefix L .pingreq
+  rw [handler_pingreq L] at h
+  exact ⟨rest, h⟩
+
+/-- **PUBREL → PUBCOMP with the same identifier**: reason 0x92 when no record exists under the identifier, reason 0
+    when a record exists and the PUBREL carries a defined success code.  Known finding F07b (restriction `hrc`): a
+    PUBREL with a failure / undefined reason code for a KNOWN identifier deletes the record and is not answered
+    (server.go `processPubrel`: `if pk.ReasonCode >= ErrUnspecifiedError.Code || !pk.ReasonCodeValid() { … return nil }`)
+    — counterexample `C07_pubrel_failure_code_unanswered`. -/
+theorem C07_pubrel_answered_partial (s : Server) (conn i id rc : Nat) (L : Live s conn i)
+    (hrc : (flGet (getObj s i) id).isSome = true → rc < 0x80 ∧ reasonValid 6 rc = true) :
+    ∃ rest, (step s (.recv conn (.pubrel id rc))).2 =
+      .wrote conn (.ack (getObj s i).ver 7 id (if (flGet (getObj s i) id).isNone then 0x92 else 0)) :: rest := by
+  obtain ⟨rest, h⟩ := step_prefix L (.pubrel id rc)
+  have ho := (processPubrel_out L id rc).2
+  refine ⟨rest, ?_⟩
+  rw [h]
+  show (processPubrel s i id rc).2.1 ++ rest = _
+  rw [ho]
+  by_cases h1 : (flGet (getObj s i) id).isNone = true
+  · rw [if_pos h1, if_pos h1]; rfl
+  · rw [if_neg h1, if_neg h1]
+    have hs : (flGet (getObj s i) id).isSome = true := by
+      cases hg : flGet (getObj s i) id with
+      | none => rw [hg] at h1; exact absurd rfl h1
+      | some _ => rfl
+    obtain ⟨a, b⟩ := hrc hs
+    have : (decide (rc ≥ 0x80) || !reasonValid 6 rc) = false := by
+      rw [b]; simp; omega
+    rw [this]; rfl
+
+/-- **PUBREC → PUBREL with the same identifier**: reason 0x92 when no record exists under the identifier (the id is
+    unknown: the broker still answers), reason 0 when a record exists and the PUBREC carries a defined success code.
+    A PUBREC with a failure / undefined reason code for a known identifier ends the exchange: the record is deleted
+    and NOTHING is written (MQTT 5 §4.3.3: correct — a failed PUBREC is not followed by PUBREL); counterexample
+    `C07_pubrec_failure_code_unanswered`. -/
+theorem C07_pubrec_answered_partial (s : Server) (conn i id rc : Nat) (L : Live s conn i)
+    (hrc : (flGet (getObj s i) id).isSome = true → rc < 0x80 ∧ reasonValid 5 rc = true) :
+    ∃ rest, (step s (.recv conn (.pubrec id rc))).2 =
+      .wrote conn (.ack (getObj s i).ver 6 id (if (flGet (getObj s i) id).isNone then 0x92 else 0)) :: rest := by
+  obtain ⟨rest, h⟩ := step_prefix L (.pubrec id rc)
+  have ho := (processPubrec_out L id rc).2
+  refine ⟨rest, ?_⟩
+  rw [h]
+  show (processPubrec s i id rc).2.1 ++ rest = _
+  rw [ho]
+  by_cases h1 : (flGet (getObj s i) id).isNone = true
+  · rw [if_pos h1, if_pos h1]; rfl
+  · rw [if_neg h1, if_neg h1]
+    have hs : (flGet (getObj s i) id).isSome = true := by
+      cases hg : flGet (getObj s i) id with
+      | none => rw [hg] at h1; exact absurd rfl h1
+      | some _ => rfl
+    obtain ⟨a, b⟩ := hrc hs
+    have : (decide (rc ≥ 0x80) || !reasonValid 5 rc) = false := by
+      rw [b]; simp; omega
+    rw [this]; rfl
+
+/-- PUBREL / PUBREC for an UNKNOWN identifier are always answered (no restriction) -/
+theorem C07_pubrel_unknown_answered (s : Server) (conn i id rc : Nat) (L : Live s conn i)
+    (hk : flGet (getObj s i) id = none) :
+    ∃ rest, (step s (.recv conn (.pubrel id rc))).2 = .wrote conn (.ack (getObj s i).ver 7 id 0x92) :: rest := by
+  have := C07_pubrel_answered_partial s conn i id rc L (by rw [hk]; intro h; cases h)
+  rw [hk] at this
+  exact this
+
+theorem C07_pubrec_unknown_answered (s : Server) (conn i id rc : Nat) (L : Live s conn i)
+    (hk : flGet (getObj s i) id = none) :
+    ∃ rest, (step s (.recv conn (.pubrec id rc))).2 = .wrote conn (.ack (getObj s i).ver 6 id 0x92) :: rest := by
+  have := C07_pubrec_answered_partial s conn i id rc L (by rw [hk]; intro h; cases h)
+  rw [hk] at this
+  exact this
+
+/-! ### PUBLISH
+
+`R07.pubVerdict s i qos id topic alias` (`Mochi/Lemmas/BrokerAnswersPub.lean`) is the table of every exit of
+`PublishValidate` / `processPublish` for a live network client, computed from the state before the packet:
+`close` (validation error 0x82/0x94, receive quota 0 → 0x93, unbound alias → 0x82, a refused QoS>0 publish of an MQTT 3
+client → 0x90/0x87), `ack t rc` (refused MQTT 5 publish: invalid topic 0x90 / not authorised 0x87 as PUBACK or PUBREC by
+QoS; PUBREC record under the identifier → PUBREC 0x91; hook error code → PUBACK 0x87; accepted → PUBACK `QosCodes[q]` /
+PUBREC 0 by the CLAMPED QoS `q`), `silent` (QoS 0 refusals, rejecting hook, clamped QoS 0). -/
+
+/-- **every exit**: verdict `close` — `closed conn` is emitted; verdict `ack t rc` — the FIRST output of the op is that
+    acknowledgement with the request's identifier -/
+theorem C07_publish_every_exit (s : Server) (conn i : Nat) (L : Live s conn i) (qos : Nat) (dup retain : Bool) (id : Nat)
+    (topic payload : Str) (me : Nat) (alias : Option Nat) :
+    (pubVerdict s i qos id topic alias = .close →
+      Out.closed conn ∈ (step s (.recv conn (.publish qos dup retain id topic payload me alias))).2) ∧
+    (∀ t rc, pubVerdict s i qos id topic alias = .ack t rc →
+      ∃ rest, (step s (.recv conn (.publish qos dup retain id topic payload me alias))).2 =
+        .wrote conn (.ack (getObj s i).ver t id rc) :: rest) :=
+  step_publish_table L qos dup retain id topic payload me alias
+
+/-- **QoS 1 → PUBACK with the same identifier (success or failure code), or the connection is closed.**
+    Restrictions, each with a counterexample below: `hclamp` (F07c, Go: server.go:940-942), `hrec` (F07d, Go:
+    server.go:921-925), `hhook` (a hook that rejects the packet: excluded by the property's own text, Go:
+    server.go:947-948). -/
+theorem C07_publish_qos1_answered_partial (s : Server) (conn i : Nat) (L : Live s conn i) (dup retain : Bool) (id : Nat)
+    (topic payload : Str) (me : Nat) (alias : Option Nat)
+    (hclamp : 1 ≤ s.caps.maximumQos)
+    (hrec : ((flGet (getObj s i) id).map (·.type)) ≠ some 5)
+    (hhook : assocGet s.pubHook (pubTopic s i topic alias) ≠ some "reject") :
+    Out.closed conn ∈ (step s (.recv conn (.publish 1 dup retain id topic payload me alias))).2 ∨
+    ∃ rc rest, (step s (.recv conn (.publish 1 dup retain id topic payload me alias))).2 =
+      .wrote conn (.ack (getObj s i).ver 4 id rc) :: rest := by
+  obtain ⟨h1, h2⟩ := step_publish_table L 1 dup retain id topic payload me alias
+  rcases pubVerdict_qos1 s i id topic alias hclamp hrec hhook with h | ⟨rc, h⟩
+  · exact Or.inl (h1 h)
+  · exact Or.inr ⟨rc, h2 4 rc h⟩
+
+/-- **QoS 2 → PUBREC with the same identifier (success or failure code, 0x91 when the identifier is in use), or the
+    connection is closed.**  Restrictions: `hclamp` (F07c), `hhook` (rejecting hook), `herr` (a hook error code for an
+    MQTT 5 client is sent as PUBACK whatever the QoS — Go: server.go:951-952 `packets.Puback`; counterexample
+    `C07_hook_error_qos2_puback`). -/
+theorem C07_publish_qos2_answered_partial (s : Server) (conn i : Nat) (L : Live s conn i) (dup retain : Bool) (id : Nat)
+    (topic payload : Str) (me : Nat) (alias : Option Nat)
+    (hclamp : 2 ≤ s.caps.maximumQos)
+    (hhook : assocGet s.pubHook (pubTopic s i topic alias) ≠ some "reject")
+    (herr : ¬ (assocGet s.pubHook (pubTopic s i topic alias) = some "err" ∧ (getObj s i).ver = 5)) :
+    Out.closed conn ∈ (step s (.recv conn (.publish 2 dup retain id topic payload me alias))).2 ∨
+    ∃ rc rest, (step s (.recv conn (.publish 2 dup retain id topic payload me alias))).2 =
+      .wrote conn (.ack (getObj s i).ver 5 id rc) :: rest := by
+  obtain ⟨h1, h2⟩ := step_publish_table L 2 dup retain id topic payload me alias
+  rcases pubVerdict_qos2 s i id topic alias hclamp hhook herr with h | ⟨rc, h⟩
+  · exact Or.inl (h1 h)
+  · exact Or.inr ⟨rc, h2 5 rc h⟩
+
+/-- **QoS 0 → no acknowledgement**: the handler takes an exit that writes none (`silent`: no error, no acknowledgement
+    written by `processPublish`) or the connection is closed.  (`hrec`: no PUBREC record under identifier 0 —
+    `PublishValidate` refuses QoS 0 with a non-zero identifier.) -/
+theorem C07_publish_qos0_no_ack (s : Server) (conn i : Nat) (L : Live s conn i) (dup retain : Bool) (id : Nat)
+    (topic payload : Str) (me : Nat) (alias : Option Nat)
+    (hrec : ((flGet (getObj s i) id).map (·.type)) ≠ some 5) :
+    (pubVerdict s i 0 id topic alias = .close ∧
+      Out.closed conn ∈ (step s (.recv conn (.publish 0 dup retain id topic payload me alias))).2) ∨
+    (pubVerdict s i 0 id topic alias = .silent ∧ ∀ t rc, pubVerdict s i 0 id topic alias ≠ .ack t rc) := by
+  rcases pubVerdict_qos0 s i id topic alias hrec with h | h
+  · exact Or.inl ⟨h, (step_publish_table L 0 dup retain id topic payload me alias).1 h⟩
+  · exact Or.inr ⟨h, fun t rc g => by rw [h] at g; cases g⟩
+
+end Mochi.Broker
+
+/-! ### concrete histories: the demo and the counterexamples behind every restriction -/
+namespace Mochi.Broker.R07
+open Mochi.Topics
+
+/-- the outputs of a history, op by op -/
+def outsOf (s : Server) : List Op → List (List Out)
+  | [] => []
+  | op :: ops => (step s op).2 :: outsOf (step s op).1 ops
+
+/-- everything but events and forwarded PUBLISH copies: the answers -/
+def isAnswer : Out → Bool
+  | .event _ => false
+  | .wrote _ (.publish ..) => false
+  | _ => true
+
+def answers (s : Server) (ops : List Op) : List (List Out) := (outsOf s ops).map (·.filter isAnswer)
+
+/-- configuration of the demo: Receive Maximum 2; client "p" may not write topic "x"; the `OnPublish` hook rejects
+    topic "r" and returns an error code for topic "e" -/
+def r07S0 : Server :=
+  { init { receiveMaximum := 2 } with
+    aclDeny := [([112], [120], true)], pubHook := [([114], "reject"), ([101], "err")] }
+
+def r07P : Connect := { ver := 5, id := [112] }
+
+def r07History : List Op :=
+  [.connect 1 r07P,                                                                     -- 0
+   .recv 1 (.subscribe 1 0 [{ filter := [116], qos := 1 }, { filter := [35, 47, 98], qos := 0 }]),  -- 1 SUBACK [01, 8F]
+   .recv 1 (.unsubscribe 2 [[116], [117]]),                                              -- 2 UNSUBACK [00, 11]
+   .recv 1 .pingreq,                                                                     -- 3 PINGRESP
+   .recv 1 (.publish 1 false false 3 [116] [97] 0 none),                                 -- 4 PUBACK 3
+   .recv 1 (.publish 2 false false 9 [116] [97] 0 none),                                 -- 5 PUBREC 9
+   .recv 1 (.publish 2 true false 9 [116] [97] 0 none),                                  -- 6 refused, id in use: PUBREC 9 0x91
+   .recv 1 (.pubrel 9 0),                                                                -- 7 PUBCOMP 9
+   .recv 1 (.pubrel 9 0),                                                                -- 8 unknown id: PUBCOMP 9 0x92
+   .recv 1 (.pubrec 77 0),                                                               -- 9 unknown id: PUBREL 77 0x92
+   .recv 1 (.publish 1 false false 4 [36, 83, 89, 83, 47, 120] [97] 0 none),             -- 10 refused, "$SYS/x": PUBACK 4 0x90
+   .recv 1 (.publish 1 false false 5 [120] [97] 0 none),                                 -- 11 refused, ACL: PUBACK 5 0x87
+   .recv 1 (.publish 1 false false 6 [101] [97] 0 none),                                 -- 12 refused, hook error: PUBACK 6 0x87
+   .recv 1 (.publish 1 false false 7 [114] [97] 0 none),                                 -- 13 rejecting hook: NOTHING (excluded)
+   .recv 1 (.publish 0 false false 0 [116] [97] 0 none),                                 -- 14 QoS 0: nothing
+   .connect 2 { ver := 5, id := [113] },                                                 -- 15
+   .recv 2 (.publish 1 false false 8 [] [97] 0 (some 3)),                                -- 16 refused, unbound alias: closed
+   .connect 3 { ver := 4, id := [118] },                                                 -- 17
+   .recv 3 (.publish 1 false false 4 [36, 83, 89, 83, 47, 120] [97] 0 none),             -- 18 refused, MQTT 3: closed
+   .connect 4 { ver := 5, id := [119] },                                                 -- 19
+   .recv 4 (.publish 1 false false 0 [116] [97] 0 none),                                 -- 20 PublishValidate (id 0): closed
+   .recv 1 (.publish 2 false false 10 [116] [97] 0 none),                                -- 21 PUBREC 10
+   .recv 1 (.publish 2 false false 11 [116] [97] 0 none),                                -- 22 PUBREC 11 (quota now 0)
+   .recv 1 (.publish 1 false false 12 [116] [97] 0 none)]                                -- 23 refused, quota: closed
+
+end Mochi.Broker.R07
+
+namespace Mochi.Broker
+open Mochi.Topics R07
+
+set_option maxRecDepth 1000000 in
+/-- the demo: every request once, one refused publish of each kind — what is written back, op by op -/
+theorem C07_demo_answers : answers r07S0 r07History =
+    [[.wrote 1 (.connack 5 false 0 2 2 none)],
+     [.wrote 1 (.suback 5 1 [1, 0x8F])],
+     [.wrote 1 (.unsuback 5 2 [0, 0x11])],
+     [.wrote 1 .pingresp],
+     [.wrote 1 (.ack 5 4 3 1)],
+     [.wrote 1 (.ack 5 5 9 0)],
+     [.wrote 1 (.ack 5 5 9 0x91)],
+     [.wrote 1 (.ack 5 7 9 0)],
+     [.wrote 1 (.ack 5 7 9 0x92)],
+     [.wrote 1 (.ack 5 6 77 0x92)],
+     [.wrote 1 (.ack 5 4 4 0x90)],
+     [.wrote 1 (.ack 5 4 5 0x87)],
+     [.wrote 1 (.ack 5 4 6 0x87)],
+     [],
+     [],
+     [.wrote 2 (.connack 5 false 0 2 2 none)],
+     [.wrote 2 (.disconnect 5 0x82), .closed 2],
+     [.wrote 3 (.connack 4 false 0 2 2 none)],
+     [.wrote 3 (.disconnect 4 0x90), .closed 3],
+     [.wrote 4 (.connack 5 false 0 2 2 none)],
+     [.wrote 4 (.disconnect 5 0x82), .closed 4],
+     [.wrote 1 (.ack 5 5 10 0)],
+     [.wrote 1 (.ack 5 5 11 0)],
+     [.wrote 1 (.disconnect 5 0x93), .closed 1]] := by decide
+
+set_option maxRecDepth 1000000 in
+/-- the demo is a sequential history with fresh connection numbers, and the client is `Live` when its requests start -/
+theorem C07_demo_valid : SeqOps r07History ∧ OpsFresh r07S0 r07History ∧
+    Live (run r07S0 (r07History.take 1)) 1 1 := by
+  refine ⟨by decide, by decide, by decide⟩
+
+/-- the demo's states are reachable (`ReachSeq`: ops without schedule ops, interleaved with configuration) -/
+theorem C07_demo_reach : ReachSeq { receiveMaximum := 2 } (run r07S0 r07History) :=
+  ((ReachSeq.init (caps := { receiveMaximum := 2 })).config (s' := r07S0) ⟨rfl, rfl, rfl, rfl, rfl, rfl, rfl, rfl⟩).run
+    r07History C07_demo_valid.1 C07_demo_valid.2.1
+
+set_option maxRecDepth 1000000 in
+/-- **F07c** (Go: server.go:940-942, the QoS is clamped BEFORE the acknowledgement is chosen): server maximum QoS 1 —
+    a QoS 2 PUBLISH is answered with PUBACK; server maximum QoS 0 — QoS 1 and QoS 2 PUBLISH are not answered at all -/
+theorem C07_F07c_counterexample :
+    answers (init { maximumQos := 1 }) [.connect 1 r07P, .recv 1 (.publish 2 false false 5 [116] [97] 0 none)] =
+      [[.wrote 1 (.connack 5 false 0 1024 1 none)], [.wrote 1 (.ack 5 4 5 1)]] ∧
+    answers (init { maximumQos := 0 }) [.connect 1 r07P, .recv 1 (.publish 1 false false 5 [116] [97] 0 none),
+        .recv 1 (.publish 2 false false 6 [116] [97] 0 none)] =
+      [[.wrote 1 (.connack 5 false 0 1024 0 none)], [], []] := by decide
+
+set_option maxRecDepth 1000000 in
+/-- **F07d** (Go: server.go:921-925, the duplicate test does not look at the QoS): a QoS 1 PUBLISH under the identifier
+    of an open inbound QoS 2 exchange is answered with PUBREC 0x91 -/
+theorem C07_F07d_counterexample :
+    answers (init {}) [.connect 1 r07P, .recv 1 (.publish 2 false false 9 [116] [97] 0 none),
+        .recv 1 (.publish 1 false false 9 [116] [97] 0 none)] =
+      [[.wrote 1 (.connack 5 false 0 1024 2 none)], [.wrote 1 (.ack 5 5 9 0)], [.wrote 1 (.ack 5 5 9 0x91)]] := by
+  decide
+
+set_option maxRecDepth 1000000 in
+/-- a hook error code for an MQTT 5 client is sent as PUBACK also for a QoS 2 PUBLISH (Go: server.go:951-952) -/
+theorem C07_hook_error_qos2_puback :
+    answers r07S0 [.connect 1 r07P, .recv 1 (.publish 2 false false 6 [101] [97] 0 none)] =
+      [[.wrote 1 (.connack 5 false 0 2 2 none)], [.wrote 1 (.ack 5 4 6 0x87)]] := by decide
+
+set_option maxRecDepth 1000000 in
+/-- a rejecting hook: a QoS 1 PUBLISH is not answered and the connection stays open (Go: server.go:947-948; excluded by
+    the property's text) -/
+theorem C07_hook_reject_unanswered :
+    answers r07S0 [.connect 1 r07P, .recv 1 (.publish 1 false false 7 [114] [97] 0 none)] =
+      [[.wrote 1 (.connack 5 false 0 2 2 none)], []] := by decide
+
+set_option maxRecDepth 1000000 in
+/-- **F07b**: PUBREL with a failure reason code for a KNOWN identifier: the record is deleted, no PUBCOMP (Go:
+    `processPubrel`, `if pk.ReasonCode >= ErrUnspecifiedError.Code || !pk.ReasonCodeValid()`) -/
+theorem C07_pubrel_failure_code_unanswered :
+    answers (init {}) [.connect 1 r07P, .recv 1 (.publish 2 false false 9 [116] [97] 0 none),
+        .recv 1 (.pubrel 9 0x80)] =
+      [[.wrote 1 (.connack 5 false 0 1024 2 none)], [.wrote 1 (.ack 5 5 9 0)], []] := by decide
+
+set_option maxRecDepth 1000000 in
+/-- PUBREC with a failure reason code for a known identifier (an outbound QoS 2 delivery, identifier 1): the exchange
+    ends, no PUBREL — correct MQTT behaviour -/
+theorem C07_pubrec_failure_code_unanswered :
+    answers (init {}) [.connect 1 r07P, .recv 1 (.subscribe 1 0 [{ filter := [116], qos := 2 }]),
+        .recv 1 (.publish 2 false false 9 [116] [97] 0 none), .recv 1 (.pubrec 1 0x80)] =
+      [[.wrote 1 (.connack 5 false 0 1024 2 none)], [.wrote 1 (.suback 5 1 [2])], [.wrote 1 (.ack 5 5 9 0)], []] := by
+  decide
+
+/-- **every request gets its response on the same connection, or the connection is closed** — for every state
+    reachable by a sequential history (interleaved with configuration changes) and every `Live` client: the conjunction
+    of the clauses above.  (`ReachSeq` is not needed by the proofs: they hold in EVERY state with a `Live` client.) -/
+theorem C07_every_request_answered_seq (caps : Caps) (s : Server) (_hr : ReachSeq caps s) (conn i : Nat)
+    (L : Live s conn i) :
+    -- SUBSCRIBE
+    (∀ id subId fs, fs ≠ [] → ∃ rcs rest, (step s (.recv conn (.subscribe id subId fs))).2 =
+        .wrote conn (.suback (getObj s i).ver id rcs) :: rest ∧ rcs.length = fs.length ∧
+        rcs = fs.map (subCode s i id)) ∧
+    -- UNSUBSCRIBE
+    (∀ id fs, fs ≠ [] → ∃ rcs rest, (step s (.recv conn (.unsubscribe id fs))).2 =
+        .wrote conn (.unsuback (getObj s i).ver id rcs) :: rest ∧ rcs.length = fs.length ∧
+        (∀ rc ∈ rcs, if (flGet (getObj s i) id).isSome then rc = 0x91 else (rc = 0x00 ∨ rc = 0x11))) ∧
+    -- PUBLISH QoS 1 / QoS 2 / QoS 0
+    (∀ dup retain id topic payload me alias, 1 ≤ s.caps.maximumQos →
+      ((flGet (getObj s i) id).map (·.type)) ≠ some 5 →
+      assocGet s.pubHook (pubTopic s i topic alias) ≠ some "reject" →
+      Out.closed conn ∈ (step s (.recv conn (.publish 1 dup retain id topic payload me alias))).2 ∨
+      ∃ rc rest, (step s (.recv conn (.publish 1 dup retain id topic payload me alias))).2 =
+        .wrote conn (.ack (getObj s i).ver 4 id rc) :: rest) ∧
+    (∀ dup retain id topic payload me alias, 2 ≤ s.caps.maximumQos →
+      assocGet s.pubHook (pubTopic s i topic alias) ≠ some "reject" →
+      ¬ (assocGet s.pubHook (pubTopic s i topic alias) = some "err" ∧ (getObj s i).ver = 5) →
+      Out.closed conn ∈ (step s (.recv conn (.publish 2 dup retain id topic payload me alias))).2 ∨
+      ∃ rc rest, (step s (.recv conn (.publish 2 dup retain id topic payload me alias))).2 =
+        .wrote conn (.ack (getObj s i).ver 5 id rc) :: rest) ∧
+    (∀ id topic alias, ((flGet (getObj s i) id).map (·.type)) ≠ some 5 →
+      ∀ t rc, pubVerdict s i 0 id topic alias ≠ .ack t rc) ∧
+    -- PUBREL / PUBREC / PINGREQ
+    (∀ id rc, ((flGet (getObj s i) id).isSome = true → rc < 0x80 ∧ reasonValid 6 rc = true) →
+      ∃ rest, (step s (.recv conn (.pubrel id rc))).2 =
+        .wrote conn (.ack (getObj s i).ver 7 id (if (flGet (getObj s i) id).isNone then 0x92 else 0)) :: rest) ∧
+    (∀ id rc, ((flGet (getObj s i) id).isSome = true → rc < 0x80 ∧ reasonValid 5 rc = true) →
+      ∃ rest, (step s (.recv conn (.pubrec id rc))).2 =
+        .wrote conn (.ack (getObj s i).ver 6 id (if (flGet (getObj s i) id).isNone then 0x92 else 0)) :: rest) ∧
+    (∃ rest, (step s (.recv conn .pingreq)).2 = .wrote conn .pingresp :: rest) := by
+  refine ⟨fun id subId fs h => C07_subscribe_answered s conn i id subId fs L h,
+    fun id fs h => C07_unsubscribe_answered s conn i id fs L h,
+    fun dup retain id topic payload me alias h1 h2 h3 =>
+      C07_publish_qos1_answered_partial s conn i L dup retain id topic payload me alias h1 h2 h3,
+    fun dup retain id topic payload me alias h1 h2 h3 =>
+      C07_publish_qos2_answered_partial s conn i L dup retain id topic payload me alias h1 h2 h3,
+    fun id topic alias h t rc g => ?_,
+    fun id rc h => C07_pubrel_answered_partial s conn i id rc L h,
+    fun id rc h => C07_pubrec_answered_partial s conn i id rc L h,
+    C07_pingreq_answered s conn i L⟩
+  rcases pubVerdict_qos0 s i id topic alias h with e | e <;> rw [e] at g <;> cases g
+
+end Mochi.Broker
+
+#print axioms Mochi.Broker.C07_subscribe_answered
+#print axioms Mochi.Broker.C07_unsubscribe_answered
+#print axioms Mochi.Broker.C07_publish_every_exit
+#print axioms Mochi.Broker.C07_publish_qos1_answered_partial
+#print axioms Mochi.Broker.C07_publish_qos2_answered_partial
+#print axioms Mochi.Broker.C07_publish_qos0_no_ack
+#print axioms Mochi.Broker.C07_pubrel_answered_partial
+#print axioms Mochi.Broker.C07_pubrec_answered_partial
+#print axioms Mochi.Broker.C07_pingreq_answered
+#print axioms Mochi.Broker.C07_every_request_answered_seq
+#print axioms Mochi.Broker.C07_demo_answers
+#print axioms Mochi.Broker.C07_demo_reach
+#print axioms Mochi.Broker.C07_F07c_counterexample
+#print axioms Mochi.Broker.C07_F07d_counterexample
